@@ -31,18 +31,30 @@ Sanitize(cs) == San(cs, FALSE)
 RECURSIVE Cat(_)
 Cat(cs) == IF cs = <<>> THEN "" ELSE cs[1] \o Cat(Tail(cs))
 
-\* paths as sequences of segments
-PathsX == { <<"a">>, <<"a", "b">>, <<"a", "bc">>, <<"ab", "c">> } \cup (IF Big THEN {<<"ab">>, <<"b", "c">>} ELSE {})
-ParamVals == {"1", "a1", "1b"}
+\* input paths: absolute or relative, sequences of segments.  Weak = {"OldSplit"} is the transcription of splitAllPaths
+\* before the fix of F17 (loop "for dir != file": the root is dropped, and a relative path whose first two segments are equal
+\* loses both of them); the faithful version keeps every element and a marker for the root.
+CONSTANT Weak
+P(abs, segs) == [abs |-> abs, segs |-> segs]
+PathsY == { P(FALSE, <<"a">>), P(FALSE, <<"a", "b">>), P(FALSE, <<"a", "bc">>), P(FALSE, <<"ab", "c">>) }
+PathsX == PathsY \cup { P(TRUE, <<"a", "b">>), P(FALSE, <<"a", "a", "b">>), P(FALSE, <<"b">>), P(FALSE, <<"..", "a", "b">>) }
+          \cup (IF Big THEN {P(FALSE, <<"ab">>), P(FALSE, <<"b", "c">>), P(FALSE, <<"a", "a">>), P(FALSE, <<"b", "b">>), P(TRUE, <<"a">>)} ELSE {})
+NoPath == P(FALSE, <<>>)
+Split(p) == IF "OldSplit" \in Weak
+            THEN (IF ~p.abs /\ Len(p.segs) >= 2 /\ p.segs[1] = p.segs[2] THEN SubSeq(p.segs, 3, Len(p.segs)) ELSE p.segs)
+            ELSE (IF p.abs THEN <<"/">> ELSE <<>>) \o p.segs
+\* parameters: none, one value, or two parameters whose names differ only in letter case (sorted byte-wise: K before k)
+ParamVals == {"1", "a1", "1b", "kK"}
 NoParam == "-"
+ParamPieces(kv) == IF kv = NoParam THEN <<>> ELSE IF kv = "kK" THEN <<"K_2", "k_1">> ELSE <<"k_" \o kv>>
 
 Ids == {[name |-> n, x |-> px, y |-> py, k |-> kv, t |-> tv] :
-          n \in Names, px \in PathsX, py \in PathsX \cup {<<>>}, kv \in ParamVals \cup {NoParam}, tv \in {NoParam, "1"}}
+          n \in Names, px \in PathsX, py \in PathsY \cup {NoPath}, kv \in ParamVals \cup {NoParam}, tv \in {NoParam, "1"}}
 
 RECURSIVE CatS(_)
 CatS(ss) == IF ss = <<>> THEN "" ELSE ss[1] \o CatS(Tail(ss))
-Pieces(i) == <<Cat(i.name)>> \o i.x \o i.y
-             \o (IF i.k = NoParam THEN <<>> ELSE <<"k_" \o i.k>>)
+Pieces(i) == <<Cat(i.name)>> \o Split(i.x) \o Split(i.y)
+             \o ParamPieces(i.k)
              \o (IF i.t = NoParam THEN <<>> ELSE <<"x.g_" \o i.t>>)
 Prefix(i) == "_scipipe_tmp." \o Cat(Sanitize(i.name))
 Folded(i) == Len(Prefix(i)) > FoldAt
@@ -57,17 +69,21 @@ NameLen(i) == Len(DirPrefix(i)) + 1 + 40
 \* C14 on the transcription
 C14_Length == \A i \in Ids : NameLen(i) <= FoldAt + 41
 Collisions == {<<i, j>> \in Ids \X Ids : i # j /\ SameDir(i, j)}
-\* every collision of the transcription is of the F4 kind: equal concatenation of pieces
+\* every collision of the transcription is of the F4 kind: DIFFERENT piece sequences with equal concatenation;
+\* identities that differ never have the same piece sequence (the weakened split violates this: F17)
+SamePieces == {c \in Collisions : Pieces(c[1]) = Pieces(c[2])}
 C14_OnlyF4 == \A c \in Collisions : PcsTab[c[1]] = PcsTab[c[2]]
 
 RECURSIVE JoinSlash(_)
 JoinSlash(ss) == IF ss = <<>> THEN "" ELSE IF Len(ss) = 1 THEN ss[1] ELSE ss[1] \o "/" \o JoinSlash(Tail(ss))
-IdJson(i) == [name |-> Cat(i.name), x |-> JoinSlash(i.x), y |-> JoinSlash(i.y), k |-> i.k, t |-> i.t,
-              pre |-> PreTab[i], prefix |-> PfxTab[i]]
+PathStr(p) == (IF p.abs THEN "/" ELSE "") \o JoinSlash(p.segs)
+IdJson(i) == [name |-> Cat(i.name), x |-> PathStr(i.x), y |-> PathStr(i.y), k |-> i.k, t |-> i.t,
+              pre |-> PreTab[i], prefix |-> PfxTab[i], pcs |-> Pieces(i)]
 
 ASSUME C14_Length
 ASSUME C14_OnlyF4
 ASSUME PrintT("NCOLLISIONS " \o ToString(Cardinality(Collisions)))
+ASSUME PrintT("NSAMEPIECES " \o ToString(Cardinality(SamePieces)))
 ASSUME PrintT("IDS " \o ToJson({IdJson(i) : i \in Ids}))
 
 VARIABLE z
